@@ -40,6 +40,157 @@ theorem size_ten (n : Nat) (h1 : 2 ^ 63 ≤ n) (h2 : n < 2 ^ 64) : Varint.size n
   have b : ¬ n.log2 < 63 := fun hlt => by have := (Nat.log2_lt hn).1 hlt; omega
   omega
 
+/-! ### the regenerated 64-bit arithmetic equals the arithmetic on naturals (no overflow below 2^61) -/
+
+/-- what `linkSerializedSize` computes, on naturals -/
+def linkSerializedSizeSpec (name cid : Bytes) (tsize : Nat) : Nat :=
+  let cidLen := cid.length
+  let nameLen := name.length
+  let linkLen := 1 + varintLen cidLen + cidLen + 1 + varintLen nameLen + nameLen + 1 + varintLen tsize
+  1 + varintLen linkLen + linkLen
+
+/-- what `dataFieldSerializedSize` computes, on naturals / integers -/
+def dataFieldSerializedSizeSpec (mode : BitVec 32) (t : C18.Time) : Nat :=
+  let inner1 := if mode != 0 then 2 + (1 + varintLen (Gen.C17.modePermsToUnixPerms mode).toNat) else 2
+  let inner2 :=
+    if !t.isZero then
+      let m0 := if t.sec ≥ 0 then 1 + varintLen t.sec.toNat else 1 + 10
+      let m1 := if t.nsec > 0 then m0 + (1 + 4) else m0
+      inner1 + (1 + varintLen m1 + m1)
+    else inner1
+  1 + varintLen inner2 + inner2
+
+theorem varintLen_le_ten (v : Nat) : varintLen v ≤ 10 := by
+  have h : v % 2 ^ 64 < 2 ^ 64 := Nat.mod_lt _ (by decide)
+  have : varintLen v = varintLen (v % 2 ^ 64) := by
+    unfold varintLen
+    congr 2
+    apply BitVec.eq_of_toNat_eq
+    simp [BitVec.toNat_ofNat]
+  rw [this, varintLen_eq_size _ h]
+  exact Varint.size_le_ten _ h
+
+theorem gen_varintLen (x : BitVec 64) (n : Nat) (h : x.toNat = n) :
+    (Gen.C17.varintLen x).toNat = varintLen n := by
+  have hx : x = BitVec.ofNat 64 n := by
+    apply BitVec.eq_of_toNat_eq
+    rw [h, BitVec.toNat_ofNat]
+    have := x.isLt
+    omega
+  rw [hx, varintLen]
+
+theorem toNat_add_of_lt (x y : BitVec 64) (a b : Nat) (hx : x.toNat = a) (hy : y.toNat = b) (h : a + b < 2 ^ 64) :
+    (x + y).toNat = a + b := by
+  rw [BitVec.toNat_add, hx, hy]; exact Nat.mod_eq_of_lt h
+
+theorem link_bridge (name cid : Bytes) (tsize : Nat) (hc : cid.length < 2 ^ 61) (hn : name.length < 2 ^ 61)
+    (ht : tsize < 2 ^ 64) :
+    linkSerializedSize name cid tsize = linkSerializedSizeSpec name cid tsize := by
+  unfold linkSerializedSize Gen.C17.linkSerializedSize linkSerializedSizeSpec
+  simp only []
+  have c0 : (BitVec.ofNat 64 cid.length).toNat = cid.length := by rw [BitVec.toNat_ofNat]; omega
+  have n0 : (BitVec.ofNat 64 name.length).toNat = name.length := by rw [BitVec.toNat_ofNat]; omega
+  have t0 : (BitVec.ofNat 64 tsize).toNat = tsize := by rw [BitVec.toNat_ofNat]; omega
+  have one : (1#64).toNat = 1 := rfl
+  have v1 := gen_varintLen _ _ c0
+  have v2 := gen_varintLen _ _ n0
+  have v3 := gen_varintLen _ _ t0
+  have b1 := varintLen_le_ten cid.length
+  have b2 := varintLen_le_ten name.length
+  have b3 := varintLen_le_ten tsize
+  have s1 := toNat_add_of_lt _ _ _ _ one v1 (by omega)
+  have s2 := toNat_add_of_lt _ _ _ _ s1 c0 (by omega)
+  have s3 := toNat_add_of_lt _ _ _ _ s2 one (by omega)
+  have s4 := toNat_add_of_lt _ _ _ _ s3 v2 (by omega)
+  have s5 := toNat_add_of_lt _ _ _ _ s4 n0 (by omega)
+  have s6 := toNat_add_of_lt _ _ _ _ s5 one (by omega)
+  have s7 := toNat_add_of_lt _ _ _ _ s6 v3 (by omega)
+  have v4 := gen_varintLen _ _ s7
+  have b4 := varintLen_le_ten (1 + varintLen cid.length + cid.length + 1 + varintLen name.length + name.length + 1 +
+    varintLen tsize)
+  have s8 := toNat_add_of_lt _ _ _ _ one v4 (by omega)
+  have s9 := toNat_add_of_lt _ _ _ _ s8 s7 (by omega)
+  exact s9
+
+theorem fin_bridge (inner : BitVec 64) (a : Nat) (h : inner.toNat = a) (ha : a < 2 ^ 32) :
+    ((1#64 + Gen.C17.varintLen inner) + inner).toNat = 1 + varintLen a + a := by
+  have v := gen_varintLen _ _ h
+  have b := varintLen_le_ten a
+  have s1 := toNat_add_of_lt (1#64) _ 1 _ rfl v (by omega)
+  exact toNat_add_of_lt _ _ _ _ s1 h (by omega)
+
+theorem tail_bridge (inner m : BitVec 64) (a b : Nat) (hi : inner.toNat = a) (hm : m.toNat = b)
+    (ha : a < 2 ^ 32) (hb : b < 2 ^ 32) :
+    (inner + ((1#64 + Gen.C17.varintLen m) + m)).toNat = a + (1 + varintLen b + b) := by
+  have h1 := fin_bridge m b hm hb
+  have := varintLen_le_ten b
+  exact toNat_add_of_lt _ _ _ _ hi h1 (by omega)
+
+theorem sle_zero_ofInt (s : Int) (h1 : -(2 ^ 63 : Int) ≤ s) (h2 : s < 2 ^ 63) :
+    BitVec.sle 0#64 (BitVec.ofInt 64 s) = decide (0 ≤ s) := by
+  have : (BitVec.ofInt 64 s).toInt = s := by
+    rw [BitVec.toInt_eq_toNat_cond, BitVec.toNat_ofInt]
+    split <;> omega
+  simp [BitVec.sle, this]
+
+theorem slt_zero_ofNat (n : Nat) (h : n < 2 ^ 62) : BitVec.slt 0#64 (BitVec.ofNat 64 n) = decide (0 < n) := by
+  have : (BitVec.ofNat 64 n).toInt = n := by
+    rw [BitVec.toInt_eq_toNat_cond, BitVec.toNat_ofNat]
+    split <;> omega
+  simp [BitVec.slt, this]
+
+theorem ofInt_toNat_nonneg (s : Int) (h1 : 0 ≤ s) (h2 : s < 2 ^ 63) : (BitVec.ofInt 64 s).toNat = s.toNat := by
+  rw [BitVec.toNat_ofInt]; omega
+
+theorem data_bridge (mode : BitVec 32) (t : C18.Time) (hv : t.valid) :
+    dataFieldSerializedSize mode t = dataFieldSerializedSizeSpec mode t := by
+  obtain ⟨h1, h2, h3⟩ := hv
+  have hsle := sle_zero_ofInt t.sec h1 h2
+  have hslt := slt_zero_ofNat t.nsec (by omega)
+  have hu : (BitVec.setWidth 64 (Gen.C17.modePermsToUnixPerms mode)).toNat = (Gen.C17.modePermsToUnixPerms mode).toNat := by
+    simp [BitVec.toNat_setWidth]
+    have := (Gen.C17.modePermsToUnixPerms mode).isLt
+    omega
+  have vu := gen_varintLen _ _ hu
+  have bu := varintLen_le_ten (Gen.C17.modePermsToUnixPerms mode).toNat
+  have bs := varintLen_le_ten t.sec.toNat
+  -- inner size before the mtime part
+  have i0 : ((0#64 : BitVec 64) + 2#64).toNat = 2 := by decide
+  have i1 : (((0#64 : BitVec 64) + 2#64) + (1#64 + Gen.C17.varintLen (BitVec.setWidth 64 (Gen.C17.modePermsToUnixPerms mode)))).toNat
+      = 2 + (1 + varintLen (Gen.C17.modePermsToUnixPerms mode).toNat) := by
+    have a := toNat_add_of_lt (1#64) _ 1 _ rfl vu (by omega)
+    exact toNat_add_of_lt _ _ _ _ i0 a (by omega)
+  -- the four shapes of mtimeSize
+  have m_pos : 0 ≤ t.sec → ((0#64 : BitVec 64) + (1#64 + Gen.C17.varintLen (BitVec.ofInt 64 t.sec))).toNat
+      = 1 + varintLen t.sec.toNat := by
+    intro hp
+    have vs := gen_varintLen _ _ (ofInt_toNat_nonneg t.sec hp h2)
+    have a := toNat_add_of_lt (1#64) _ 1 _ rfl vs (by omega)
+    have := toNat_add_of_lt (0#64) _ 0 _ rfl a (by omega)
+    omega
+  have m_pos5 : 0 ≤ t.sec → (((0#64 : BitVec 64) + (1#64 + Gen.C17.varintLen (BitVec.ofInt 64 t.sec))) + 5#64).toNat
+      = 1 + varintLen t.sec.toNat + (1 + 4) := by
+    intro hp
+    exact toNat_add_of_lt _ (5#64) _ 5 (m_pos hp) rfl (by omega)
+  have m_neg : ((0#64 : BitVec 64) + 11#64).toNat = 1 + 10 := by decide
+  have m_neg5 : (((0#64 : BitVec 64) + 11#64) + 5#64).toNat = 1 + 10 + (1 + 4) := by decide
+  unfold dataFieldSerializedSize Gen.C17.dataFieldSerializedSize dataFieldSerializedSizeSpec
+  simp only [hsle, hslt]
+  cases hm : (mode != 0#32) <;> cases hz : t.isZero <;> by_cases hp : 0 ≤ t.sec <;> by_cases hn : 0 < t.nsec <;>
+    simp only [hp, hn, decide_true, decide_false, Bool.not_true, Bool.not_false, if_true, if_false,
+      Bool.false_eq_true]
+  all_goals first
+    | exact fin_bridge _ _ i0 (by omega)
+    | exact fin_bridge _ _ i1 (by omega)
+    | exact fin_bridge _ _ (tail_bridge _ _ _ _ i0 (m_pos5 hp) (by omega) (by omega)) (by have := varintLen_le_ten (1 + varintLen t.sec.toNat + (1 + 4)); omega)
+    | exact fin_bridge _ _ (tail_bridge _ _ _ _ i0 (m_pos hp) (by omega) (by omega)) (by have := varintLen_le_ten (1 + varintLen t.sec.toNat); omega)
+    | exact fin_bridge _ _ (tail_bridge _ _ _ _ i0 m_neg5 (by omega) (by omega)) (by have := varintLen_le_ten (1 + 10 + (1 + 4)); omega)
+    | exact fin_bridge _ _ (tail_bridge _ _ _ _ i0 m_neg (by omega) (by omega)) (by have := varintLen_le_ten (1 + 10); omega)
+    | exact fin_bridge _ _ (tail_bridge _ _ _ _ i1 (m_pos5 hp) (by omega) (by omega)) (by have := varintLen_le_ten (1 + varintLen t.sec.toNat + (1 + 4)); omega)
+    | exact fin_bridge _ _ (tail_bridge _ _ _ _ i1 (m_pos hp) (by omega) (by omega)) (by have := varintLen_le_ten (1 + varintLen t.sec.toNat); omega)
+    | exact fin_bridge _ _ (tail_bridge _ _ _ _ i1 m_neg5 (by omega) (by omega)) (by have := varintLen_le_ten (1 + 10 + (1 + 4)); omega)
+    | exact fin_bridge _ _ (tail_bridge _ _ _ _ i1 m_neg (by omega) (by omega)) (by have := varintLen_le_ten (1 + 10); omega)
+
 /-! ### one link -/
 
 theorem linkBody_length (l : C11.Link) :
@@ -62,18 +213,18 @@ theorem linkMsg_length (l : C11.Link) :
 
 /-- `linkSerializedSize` is the number of bytes the link occupies in the encoded PBNode -/
 theorem linkSerializedSize_eq (l : C11.Link) (hs : l.size < 2 ^ 63)
-    (hlen : (encodeMsg (C11.linkFields l)).length < 2 ^ 64) :
+    (hlen : (encodeMsg (C11.linkFields l)).length < 2 ^ 61) :
     linkSerializedSize l.name l.cid l.size = (C11.linkMsg l).encode.length := by
   have hb := linkBody_length l
   simp only [hs, if_true] at hb
-  rw [linkMsg_length]
-  unfold linkSerializedSize
+  rw [link_bridge l.name l.cid l.size (by omega) (by omega) (by omega), linkMsg_length]
+  unfold linkSerializedSizeSpec
   simp only []
   rw [varintLen_eq_size l.cid.length (by omega), varintLen_eq_size l.name.length (by omega),
     varintLen_eq_size l.size (by omega)]
   have hX : 1 + Varint.size l.cid.length + l.cid.length + 1 + Varint.size l.name.length + l.name.length + 1 +
       Varint.size l.size = (encodeMsg (C11.linkFields l)).length := by omega
-  rw [hX, varintLen_eq_size _ hlen]
+  rw [hX, varintLen_eq_size _ (by omega)]
 
 /-! ### the Data field of a directory created with (mode, mtime) -/
 
